@@ -162,6 +162,9 @@ func applyIfaceFlags(code string, r mRec) mRec {
 	if strings.Contains(base, "C") {
 		fl[1] = 'c'
 	}
+	if strings.Contains(base, "E") { // Options.Apply → SetAbsoluteExpiry: expiry set, deletion mark cleared
+		fl[2], fl[3] = '-', 'f'
+	}
 	r.flags = string(fl)
 	return r
 }
@@ -188,6 +191,9 @@ func flagsOf(f string) string {
 func monitor(c hxlib.Case, outs []string) (vs []hxlib.Violation) {
 	if len(c.Lines) > 0 && strings.HasPrefix(c.Lines[0], "conc") {
 		return monitorConc(c, outs)
+	}
+	if len(c.Lines) > 0 && strings.HasPrefix(c.Lines[0], "hconc") {
+		return monitorHConc(c, outs)
 	}
 	seenSig := map[string]bool{}
 	add := func(i int, sig, what string) {
@@ -248,6 +254,10 @@ func monitor(c hxlib.Case, outs []string) (vs []hxlib.Violation) {
 			if sig, what := monitorCfgOps(l, o); sig != "" {
 				add(i, sig, what)
 			}
+		case "purgecase":
+			if sig, what := monitorPurge(l, o); sig != "" {
+				add(i, sig, what)
+			}
 		case "cfgpush":
 			if sig, what := monitorCfg(l, o); sig != "" {
 				add(i, sig, what)
@@ -273,7 +283,7 @@ func monitor(c hxlib.Case, outs []string) (vs []hxlib.Violation) {
 			if h := findHook(f[1]); h != nil && o == "ok" {
 				h.active = false
 			}
-		case "drain":
+		case "drain", "drain1":
 			if o == "-" {
 				break
 			}
@@ -331,7 +341,33 @@ func monitor(c hxlib.Case, outs []string) (vs []hxlib.Violation) {
 				}
 				s.expect, s.fuzzy, s.pending = nil, false, 0
 			}
-		case "put", "putnew", "push", "del", "mksec", "mkcj", "exp", "ins", "get":
+		case "putmany":
+			// Interface.PutMany: a write through an interface — the property demands delivery and pre-put hooks all the same
+			if of[0] != "ok" {
+				break
+			}
+			wm := mRec{key: f[2], s: f[4], flags: flagsOf(unq(f[5])), ok: true}
+			wm.n, _ = strconv.ParseInt(f[3], 10, 64)
+			wm = applyIfaceFlags(f[1], wm)
+			for _, s := range subs {
+				if !s.active {
+					continue
+				}
+				s.fuzzy = true // whether it is delivered is what is in question: no exact demand on the next drain
+				if s.q.matches(wm) && s.maySee(wm) {
+					if nxt, ok := drainAt(c, outs, i+1, s.sid); ok && !contains(nxt, wm.String()) {
+						add(i, "C14:putmany:bypasses-hooks-and-subscribers",
+							fmt.Sprintf("Interface.PutMany stored %s but s%s was not notified", wm, s.sid))
+					}
+				}
+			}
+			for _, h := range hooks {
+				if skipped(h, "pp", wm) && !strings.Contains(o, "h"+h.hid+".pp(") {
+					add(i, "C14:putmany:bypasses-hooks-and-subscribers",
+						fmt.Sprintf("Interface.PutMany stored %s but pre-put hook h%s was not called", wm, h.hid))
+				}
+			}
+		case "put", "putnew", "push", "del", "mksec", "mkcj", "exp", "ins", "relexp", "get", "exists":
 			iface := "LI"
 			key := f[1]
 			if f[0] != "push" {
@@ -441,7 +477,7 @@ func monitor(c hxlib.Case, outs []string) (vs []hxlib.Violation) {
 				after, ok2 := rawAt(i+1, key)
 				if ok1 && ok2 && before != after {
 					sig := fmt.Sprintf("C14:veto-storage-changed:%s:%s", kind, f[0])
-					if kind == "hashmap" && (f[0] == "del" || f[0] == "mksec" || f[0] == "mkcj" || f[0] == "exp" || f[0] == "ins") {
+					if kind == "hashmap" && (f[0] == "del" || f[0] == "mksec" || f[0] == "mkcj" || f[0] == "exp" || f[0] == "ins" || f[0] == "relexp") {
 						sig = "C14:veto-storage-changed:inplace-modify-on-hashmap"
 					}
 					add(i, sig, fmt.Sprintf("pre-put hook h%s vetoed %s but the stored record changed from %s to %s", vetoed.hid, f[0], before, after))
@@ -474,7 +510,7 @@ func monitor(c hxlib.Case, outs []string) (vs []hxlib.Violation) {
 					if !known && ph == "og" && f[0] == "get" && success {
 						recStr, known = of[1], true
 					}
-					if !known || (ph == "pp" && (f[0] == "get" || f[0] == "push")) || (ph == "og" && (f[0] == "put" || f[0] == "putnew" || f[0] == "push")) {
+					if !known || (ph == "pp" && (f[0] == "get" || f[0] == "exists" || f[0] == "push")) || (ph == "og" && (f[0] == "put" || f[0] == "putnew" || f[0] == "push")) {
 						continue
 					}
 					r := parseRecStr(recStr)
@@ -484,6 +520,15 @@ func monitor(c hxlib.Case, outs []string) (vs []hxlib.Violation) {
 						}
 					}
 				}
+			}
+			if f[0] == "exists" {
+				// Exists is a get operation: same hook clause, the answer reduced to yes / no
+				if stored, ok := rawAt(i-1, key); ok {
+					if want := expectExists(expectGet(hooks, iface, key, stored)); want != o {
+						add(i, "C14:exists:hooks-or-result", fmt.Sprintf("stored %s: the hook clause requires %q", stored, want))
+					}
+				}
+				break
 			}
 			if f[0] == "get" {
 				// the get-hook clause read from what is stored (raw line before the get), independent of the calls observed
@@ -627,6 +672,24 @@ func expectGet(hooks []*mHook, iface, key, stored string) string {
 		return out("err denied")
 	}
 	return out("ok " + cur.String())
+}
+
+// expectExists: Interface.Exists answers yes if Get succeeds or is refused for lack of permission, no if Get finds
+// nothing; any other error (a veto) is handed on. The hook calls are those of the Get.
+func expectExists(get string) string {
+	f := strings.Fields(get)
+	if len(f) == 0 {
+		return get
+	}
+	switch {
+	case f[0] == "ok" && len(f) >= 2:
+		return strings.TrimSpace("ok true " + strings.Join(f[2:], " "))
+	case f[0] == "err" && len(f) >= 2 && f[1] == "notfound":
+		return strings.TrimSpace("ok false " + strings.Join(f[2:], " "))
+	case f[0] == "err" && len(f) >= 2 && f[1] == "denied":
+		return strings.TrimSpace("ok true " + strings.Join(f[2:], " "))
+	}
+	return get
 }
 
 func hookIndex(hooks []*mHook, hid string) int {
